@@ -17,15 +17,16 @@ import (
 // C04 — cmdline blocks match every listed command with anti-evasion tokens interleaved.
 
 type c04Case struct {
-	Kind      string     `json:"kind"`     // unix | windows
-	Words     []string   `json:"words"`    // lines of the cmdline block
-	Surround  string     `json:"surround"` // bare | entries | nested | include
-	CfgName   string     `json:"cfg_name"`
-	CfgYAML   string     `json:"cfg_yaml"`  // "-" absent, "<dir>" a directory in place of the file
-	CfgFlag   string     `json:"cfg_flag"`  // value for -f ("" = default toolchain.yaml)
-	Effective evasionCfg `json:"effective"` // what the statement says is in force
-	Exact     bool       `json:"exact"`     // patterns are concatenation-safe: the exact comparison with the reference applies too
-	Seed      int64      `json:"seed"`
+	IO        *ioScenario `json:"io,omitempty"` // an I/O-fault scenario (the other fields are unused then)
+	Kind      string      `json:"kind"`         // unix | windows
+	Words     []string    `json:"words"`        // lines of the cmdline block
+	Surround  string      `json:"surround"`     // bare | entries | nested | include
+	CfgName   string      `json:"cfg_name"`
+	CfgYAML   string      `json:"cfg_yaml"`  // "-" absent, "<dir>" a directory in place of the file
+	CfgFlag   string      `json:"cfg_flag"`  // value for -f ("" = default toolchain.yaml)
+	Effective evasionCfg  `json:"effective"` // what the statement says is in force
+	Exact     bool        `json:"exact"`     // patterns are concatenation-safe: the exact comparison with the reference applies too
+	Seed      int64       `json:"seed"`
 }
 
 // sampleFrom draws a string from the language of a parsed regex by a random walk.
@@ -152,12 +153,18 @@ func (c *c04Case) program() (string, *ra.Files) {
 	case "include":
 		files.Include["cmds"] = strings.Join(c.Words, "\n") + "\n"
 		return "##!> cmdline " + c.Kind + "\n  ##!> include cmds\n##!<\n", files
+	case "behind-long-line":
+		// in front of the block stands an entry that grows to 70 KB only when its definitions are expanded
+		return "##!> define blob " + strings.Repeat("0123456789", 100) + "\nzz" + strings.Repeat("{{blob}}", 70) + "\n" + block, files
 	}
 	return block, files
 }
 
 func c04Check(env *core.Env, cc core.Case) core.Verdict {
 	c := cc.(*c04Case)
+	if c.IO != nil {
+		return ioScenarioCheck(env, "C04", c.IO)
+	}
 	root := emptyRoot(env)
 	defer rmCase(root)
 	program, files := c.program()
@@ -359,7 +366,7 @@ func c04Check(env *core.Env, cc core.Case) core.Verdict {
 			}
 		}
 	}
-	if c.Exact {
+	if c.Exact && c.Surround != "behind-long-line" {
 		plain, err := ra.Inline(program, files, ra.InlineOpts{Includes: true})
 		if err == nil {
 			if ref, err := ra.Reference(plain, c.Effective.config()); err == nil && ref != "" {
@@ -400,7 +407,7 @@ func c04Check(env *core.Env, cc core.Case) core.Verdict {
 }
 
 func c04Gen(r *rand.Rand) *c04Case {
-	c := &c04Case{Kind: core.Pick(r, "unix", "unix", "windows"), Surround: core.Pick(r, "bare", "bare", "entries", "nested", "include"), Seed: r.Int63()}
+	c := &c04Case{Kind: core.Pick(r, "unix", "unix", "windows"), Surround: core.Pick(r, "bare", "bare", "entries", "nested", "include", "bare", "bare", "entries", "nested", "include", "behind-long-line"), Seed: r.Int63()}
 	letters := "abcdefghijklmnopqrstuvwxyz0123456789"
 	word := func() string {
 		n := 1 + r.Intn(10)
@@ -524,6 +531,9 @@ func init() {
 			var cs []core.Case
 			for i := 0; i < n; i++ {
 				cs = append(cs, c04Gen(rng))
+			}
+			for _, sc := range ioCases("C04") {
+				cs = append(cs, &c04Case{IO: sc})
 			}
 			return cs
 		},
